@@ -317,13 +317,19 @@ def main(argv=None):
     if tier == 'thorough':
         need_bounded = [r for r in results if not r['crash']]
     seen_b = set()
+    uniq_b = []
     for r in need_bounded:
         key = (r['unit_spec'], r['mode'])
         if key in seen_b:
             continue
         seen_b.add(key)
-        n = 1500 if tier == 'quick' else 6000
-        b = bounded_run(r['unit_spec'], r['mode'] == 'O', seed, n)
+        uniq_b.append(r)
+    n = 1500 if tier == 'quick' else 6000
+    # the companions are independent child processes: run them side by side
+    from concurrent.futures import ThreadPoolExecutor
+    with ThreadPoolExecutor(max_workers=max(1, min(args.jobs, 16))) as tp:
+        b_results = list(tp.map(lambda r: bounded_run(r['unit_spec'], r['mode'] == 'O', seed, n), uniq_b))
+    for r, b in zip(uniq_b, b_results):
         bounded["%s [%s]" % (r['name'], r['mode'])] = dict(evaluations=b.get('evals', 0), skipped=b.get('skipped', 0),
                                                           failures=len(b.get('failures', [])))
         for fl in b.get('failures', [])[:1]:
